@@ -592,6 +592,15 @@ class C04(Check):
                      "1" * L, "0" * L, "0." + "0" * L, "-" * L, "." * L, "9" * L + " xmr", "1 " + "x" * L, " " * L, "1" + " " * L + "xmr",
                      "é" * 10, "1é", "é" * (L // 2), "1\x00", "\x00", "\x001", "1\x00 xmr", "\x00" * L, "١٢٣", "１２３", "1.５", "1 xmr\x00",
                      "\U0001F600" * 12, "\U0001F600" * 13, "é" * 24, "é" * 25, "é" * 26, "€" * 16, "€" * 17, "1" * 48 + "é", "1" * 49 + "é"]
+        # the range boundaries of both amount types, both signs, with the decimal point in every position (so that every
+        # denomination sees each magnitude as a whole number of piconero): the sign handling of the extreme value must not
+        # overflow in a checked build
+        for m in (2 ** 63 - 1, 2 ** 63, 2 ** 63 + 1, 2 ** 64 - 1, 2 ** 64, 10 ** 19):
+            ds = str(m)
+            for k in (0, 3, 6, 9, 12):
+                body = ds if k == 0 else (ds[:-k] + "." + ds[-k:])
+                for sign in ("", "-"):
+                    amt_texts.append(sign + body)
         for _ in range(150 if not thorough else 1500):
             n = rng.choice([0, 1, 2, 5, 19, 20, 21, 49, 50, 51])
             amt_texts.append("".join(rng.choice("0123456789.- xmrXMR\x00éµ") for _ in range(n)))
